@@ -325,6 +325,20 @@ func c20Run(c *sim.Ctx) {
 	}
 }
 
+// c20anoms remembers which anomalies were present at the previous quiescent
+// point, so that a persisting inconsistency is reported once, against the
+// operation (or concurrent round) that introduced it.
+type c20anoms struct{ prev, cur map[string]bool }
+
+func (a *c20anoms) begin() { a.cur = map[string]bool{} }
+
+// fresh records the anomaly and reports whether it is new.
+func (a *c20anoms) fresh(key string) bool {
+	a.cur[key] = true
+	return !a.prev[key]
+}
+func (a *c20anoms) end() { a.prev = a.cur }
+
 func c20idx(v int64, n int) int {
 	if n <= 0 {
 		return 0
@@ -348,7 +362,7 @@ func init() {
 		Stub: []string{"NTE store behind LoadFromStore/SyncToNTE (in-memory map of nexus.NTE records)", "address allocator behind subscriber.Manager (lowest-free model over 1-3 addresses)",
 			"fixed-key circuit-id map (harness map keyed by the real MakeCircuitIDKey/HashCircuitID; kernel maps absent)", "callers (harness tasks)"},
 		Rule: "cases: one component per run; 3-16 rounds of 1-4 callers x 0-2 ops over <=5 NTEs/subscribers/MACs, tag ranges 1-2 outer x 1-3 inner, stored-pair loads (restart / reload, incl. conflicting records), two sessions per MAC, id wrap-around (65535 create/remove pairs), cleanup under virtual time; non-trivial = >=3 completed operations and (a fault fired or >2 context switches); distinct = distinct (case hash, schedule fingerprint)",
-		QuickRuns:    20000,
+		QuickRuns:    12000,
 		ThoroughRuns: 1500000,
 		Assumptions: []string{"a tag value of 0 is never offered (0 = no tag)", "an operation may fail at any time unless a released key would have satisfied it; a failed operation leaves other subscribers' mappings unchanged",
 			"with several live sessions for one MAC a by-MAC lookup may return any of them, but not none", "session expiry is only judged at least 0.5 s away from the timeout boundary",
